@@ -706,8 +706,11 @@ func (s *Netceptor) RemoveLocalServiceAdvertisement(service string) error {
 	s.serviceAdsLock.Lock()
 	defer s.serviceAdsLock.Unlock()
 	n, ok := s.serviceAdsReceived[s.nodeID]
-	connType := n[service].ConnType
+	var connType byte
 	if ok {
+		if ad, adOK := n[service]; adOK && ad != nil {
+			connType = ad.ConnType
+		}
 		delete(n, service)
 	}
 	sa := &serviceAdvertisementFull{
